@@ -365,7 +365,8 @@ reg("C07",
         LG.leg_concurrent(G.Rng(seed + 71), N(tier, 4, 40), flavours, procs=N(tier, 6, 12), ops_per_proc=N(tier, 60, 150)),
         LG.leg_skeleton(gen_big_record_programs(seed, tier), "tokio" if "tokio" in flavours else flavours[0]),
         LG.leg_skeleton(P.gen_roundtrip_programs(G.Rng(seed + 73), N(tier, 6, 40)), flavours[0]),
-        *[LG.leg_observer_sweep(fl, tier) for fl in (flavours if tier == "thorough" else flavours[:1])]),
+        *[LG.leg_observer_sweep(fl, tier) for fl in (flavours if tier == "thorough" else flavours[:1])],
+        LG.leg_cold_start_race(flavours, N(tier, 12, 80))),
     nontrivial=lambda rr: True,
     rule="(a) real concurrency: 6-12 processes (sync + async API, async-std and tokio binaries) on one cache: writers "
          "of the same key, of different keys with equal content, removers, readers, listers; every read must be a "
@@ -376,7 +377,8 @@ reg("C07",
          "write_hash on a cold cache, an overwrite, a write of content another key holds, a remove, a remove_hash (sync and "
          "async) is stopped on entry to each of its mutating system calls, and metadata / read / list / exists / read_hash "
          "(sync and async) run on the directory as it stands: every answer must be the observer's answer before the "
-         "operation or after it")
+         "operation or after it; (e) COLD START RACE: 8 processes (sync and async API, both runtime binaries) released at the "
+         "same instant make their first writes into one cold cache - every write succeeds and reads back")
 
 
 def gen_big_record_programs(seed, tier):
